@@ -299,6 +299,64 @@ func verif_C19_iter(shape, op, j, from int) {
 	}
 }
 
+// verif_C19_iter2: two mutations between two Next() calls. seq 0: Delete(k1)
+// then Insert(k2); seq 1: Insert(k1) then Delete(k2); same=1 constrains k2 == k1
+// (delete and re-insert the same key, e.g. the one under the cursor).
+func verif_C19_iter2(shape, j, seq, same int) {
+	s := verifShapeByIndex(shape)
+	n := verifShapeSize(s)
+	keys := verifKeys(n)
+	pos := 0
+	var nodes []*AvlNode
+	tree := &AvlTree{}
+	tree.Root = verifBuild(s, keys, &pos, nil, &nodes)
+	it := tree.Iterator()
+	for i := 0; i < j && it.Ok(); i++ {
+		it.Next()
+	}
+	if !it.Ok() {
+		return
+	}
+	cur := it.Get()
+	k1 := VerifAnyInt("k1")
+	k2 := k1
+	if same == 0 {
+		k2 = VerifAnyInt("k2")
+	}
+	var mid []int
+	if seq == 0 {
+		tree.Delete(k1)
+		mid = verifExpected(keys, k1, false)
+		tree.Insert(k2)
+	} else {
+		tree.Insert(k1)
+		mid = verifExpected(keys, k1, true)
+		tree.Delete(k2)
+	}
+	after := verifExpected(mid, k2, seq == 0)
+	VerifReach("mutated-twice-under-iterator")
+	var got []int
+	for it.Next(); it.Ok(); it.Next() {
+		got = append(got, it.Get())
+		if len(got) > n+4 {
+			break
+		}
+	}
+	prev := cur
+	for _, g := range got {
+		VerifAssert("iter2-ascending", g > prev)
+		VerifAssert("iter2-member", verifMember(after, g))
+		prev = g
+	}
+	for _, x := range keys {
+		if x > cur && x != k1 && x != k2 {
+			VerifAssert("iter2-visits-untouched-survivor", verifMember(got, x))
+		}
+	}
+	var all []int
+	verifCheckTree(tree.Root, nil, &all)
+}
+
 // verif_C19_reach: the literal pre-state is what public Insert calls build
 // (keys inserted level by level never trigger a rotation).
 func verif_C19_reach(shape int) {
@@ -366,6 +424,7 @@ func init() {
 	VerifRegister("verif_C19_step", func(a []int) { verif_C19_step(a[0], a[1]) })
 	VerifRegister("verif_C19_probe", func(a []int) { verif_C19_probe(a[0], a[1]) })
 	VerifRegister("verif_C19_iter", func(a []int) { verif_C19_iter(a[0], a[1], a[2], a[3]) })
+	VerifRegister("verif_C19_iter2", func(a []int) { verif_C19_iter2(a[0], a[1], a[2], a[3]) })
 	VerifRegister("verif_C19_reach", func(a []int) { verif_C19_reach(a[0]) })
 	VerifRegister("verif_C19_clone", func(a []int) { verif_C19_clone(a[0], a[1]) })
 }
